@@ -240,6 +240,11 @@ func (llb *Buffer) WriteTo(w io.Writer) (n int64, err error) {
 		}
 		n += int64(m)
 		if err != nil {
+			if m < b.len() {
+				// Keep the bytes the writer did not take.
+				b.buf = b.buf[m:]
+				llb.pushFront(b)
+			}
 			return
 		}
 		if m < b.len() {
